@@ -32,7 +32,11 @@ class Rule:
     ('bool' | 'int' | 'real' | 'oref' | callable(E) -> fresh symbolic value);  leave_args_kind likewise for the list elements."""
 
     def __init__(self, J, Qe=None, Ql=None, modifies=(), enter_kind="oref", leave_kind="oref", depth=None, label="traverse",
-                 ghost_enter=None, ghost_leave=None, leave_arities=None, kids=None, fork_steps=False):
+                 ghost_enter=None, ghost_leave=None, leave_arities=None, kids=None, fork_steps=False, leave_list=None):
+        # leave_list(E, vars, x, ctx) -> the list `leave` receives at node x, of SYMBOLIC length nkids(x), for non-scalar values that Ql
+        # determines (one-point rule; e.g. pyvc.ext_C07.NodeList of the handles of x's children in table order).  Ql is still assumed
+        # for every element (`list.get(k)`).
+        self.leave_list = leave_list
         # fork_steps: run each step (enter / leave) on its OWN path that ends after the step's obligations, instead of continuing
         # every path of the step through the rest of the carrier (same obligations, fewer repeated instances; for callbacks with many paths)
         self.fork_steps = fork_steps
@@ -213,7 +217,12 @@ def apply(eng, rule: Rule, fr, topology, enter, leave, root):
             eng.assume(_zb(rule.J(eng, vars_now(), ENT, LEFT, ctx)))
             args = None
             kind = rule.leave_kind
-            if callable(kind):
+            if rule.leave_list is not None:
+                v = vars_now()
+                args = rule.leave_list(eng, v, xz, ctx)
+                ks = fresh("int", "k")
+                eng.assume(z3.ForAll([ks.z], z3.Implies(z3.And(0 <= ks.z, ks.z < nkids(xz)), _zb(rule.Ql(eng, v, kid(xz, ks.z), args.get(ks), ctx)))))
+            elif callable(kind):
                 # non-scalar values: one run of the step per supported number of children, with a concrete list of fresh values
                 if rule.leave_arities is None:
                     raise Unsupported("traverse rule: non-scalar leave values need `leave_arities` (the numbers of children the step is run for)")
